@@ -305,6 +305,10 @@ func caseTable(w *World, p *packages.Package, fd *ast.FuncDecl, tagName string, 
 	return out
 }
 
+// fmtSubst maps the names the port changed onto common ones.
+var fmtSubst = map[string]string{"formatter": "$F", "fmt": "$F", "fmtbuf": "$B", "buffer": "$B",
+	"WriteSingleByte": "writeByte", "WriteString": "writeString", "Write": "write", "WriteRune": "writeRune"}
+
 var fmtPortIdentical = []string{
 	"formatter.fmtBoolean", "formatter.fmtUnicode", "formatter.truncateString", "formatter.truncate",
 	"formatter.fmtS", "formatter.fmtBs", "formatter.fmtSx", "formatter.fmtBx", "formatter.fmtQ", "formatter.fmtQc",
@@ -320,7 +324,7 @@ func ruleFMT4(c *Ctx) {
 		c.anchor("reference package fmt: " + err.Error())
 		return
 	}
-	sub := map[string]string{"formatter": "$F", "fmt": "$F", "fmtbuf": "$B", "buffer": "$B"}
+	sub := fmtSubst
 	refName := func(n string) string {
 		n = strings.Replace(n, "formatter.", "fmt.", 1)
 		return strings.Replace(n, "fmtbuf.", "buffer.", 1)
@@ -419,6 +423,67 @@ func ruleFMT5(c *Ctx) {
 		flag[st.Field(i)] = true
 	}
 	parser := map[string]bool{"pp.doFormat": true, "formatter.clearFlags": true, "formatter.init": true}
+	// helpers of the directive parser: unexported functions all of whose
+	// (type-resolved) callers are already part of it set flags for the
+	// directive being parsed, exactly like code written inline in doFormat
+	callers := map[string]map[string]bool{}
+	declOf := map[*types.Func]string{}
+	w.AllFuncDecls(p, func(fd *ast.FuncDecl) {
+		if fn, ok := p.TypesInfo.Defs[fd.Name].(*types.Func); ok {
+			declOf[fn] = funcName(fd)
+		}
+	})
+	w.AllFuncDecls(p, func(fd *ast.FuncDecl) {
+		ast.Inspect(fd.Body, func(nd ast.Node) bool {
+			if call, ok := nd.(*ast.CallExpr); ok {
+				if name, ok := declOf[Callee(p, call)]; ok {
+					if callers[name] == nil {
+						callers[name] = map[string]bool{}
+					}
+					callers[name][funcName(fd)] = true
+				}
+			}
+			return true
+		})
+	})
+	// (one level, and only call-free helpers: a helper that goes on to format
+	// something is not part of the parser)
+	callFree := map[string]bool{}
+	w.AllFuncDecls(p, func(fd *ast.FuncDecl) {
+		free := true
+		ast.Inspect(fd.Body, func(nd ast.Node) bool {
+			if call, ok := nd.(*ast.CallExpr); ok {
+				isBuiltin := false
+				if id, ok := ast.Unparen(call.Fun).(*ast.Ident); ok {
+					_, isBuiltin = p.TypesInfo.Uses[id].(*types.Builtin)
+				}
+				if tv, ok := p.TypesInfo.Types[call.Fun]; !isBuiltin && (!ok || !tv.IsType()) {
+					free = false
+				}
+			}
+			return true
+		})
+		callFree[funcName(fd)] = free
+	})
+	base := map[string]bool{}
+	for k := range parser {
+		base[k] = true
+	}
+	for name, cs := range callers {
+		short := name[strings.LastIndex(name, ".")+1:]
+		if parser[name] || ast.IsExported(short) || !callFree[name] {
+			continue
+		}
+		all := true
+		for cn := range cs {
+			if !base[cn] {
+				all = false
+			}
+		}
+		if all {
+			parser[name] = true
+		}
+	}
 	n := 0
 	w.AllFuncDecls(p, func(fd *ast.FuncDecl) {
 		if parser[funcName(fd)] {
